@@ -80,15 +80,16 @@ int sqfs_meta_writer_append(sqfs_meta_writer_t *m, const void *data,
 		g_faults += 1;
 		return SQFS_ERROR_IO;
 	}
+	g_blk_at[g_cap_n] = g_blk;	/* block the first byte goes to */
 	for (i = 0; i < 12; ++i) {
-		if (i < size) {
-			g_blk_at[g_cap_n] = g_blk;
+		if (i < size)
 			g_cap[g_cap_n++] = ((const sqfs_u8 *)data)[i];
-			if (++g_off == SQFS_META_BLOCK_SIZE) {
-				g_off = 0;
-				g_blk += 3 + verif_nd_u16("block_bytes") % 8192;
-			}
-		}
+	}
+	g_off += size;
+	if (g_off >= SQFS_META_BLOCK_SIZE) {
+		/* a block was completed and emitted (3..8194 bytes on disk) */
+		g_off -= SQFS_META_BLOCK_SIZE;
+		g_blk += 3u + (verif_nd_u16("block_bytes") & 8191u);
 	}
 	return 0;
 }
